@@ -157,10 +157,12 @@ class rrulebase(object):
                     (item.stop is not None and item.stop < 0)):
                 return list(iter(self))[item]
             else:
-                return list(itertools.islice(self,
-                                             item.start,
-                                             item.stop,
-                                             item.step))
+                # islice() rejects bounds above sys.maxsize, which a list
+                # slice accepts; no sequence is longer than that.
+                start, stop, step = (x if x is None else min(x, sys.maxsize)
+                                     for x in (item.start, item.stop,
+                                               item.step))
+                return list(itertools.islice(self, start, stop, step))
         elif item >= 0:
             gen = iter(self)
             try:
